@@ -111,6 +111,13 @@ def _run_chunk(args):
     return idx, out
 
 
+def _rank_main(pid, share, q):
+    _worker_init(pid)
+    for item in share:
+        q.put(_run_chunk(item))
+    q.put(None)
+
+
 def _chunks(it, size):
     it = iter(it)
     i = 0
@@ -179,40 +186,69 @@ def run(pid, tier, seed, workers=None, chunk=None):
     harness_errors = []
     ncases = 0
     hashes = set()
-    gen = _chunks(mod.cases(tier, seed), chunk)
-    if workers > 1:
+    # Deterministic static partition: chunk i is executed by worker i mod N, in increasing order, in a process that
+    # executes nothing else.  State leaked between cases inside the library (module-level caches, mutable default
+    # arguments) therefore shows up in the same executions on every run.
+    chunks = list(_chunks(mod.cases(tier, seed), chunk))
+    outputs = {}
+    if workers > 1 and len(chunks) > 1:
         ctx = mp.get_context('fork')
-        pool = ctx.Pool(workers, initializer=_worker_init, initargs=(pid,))
-        results = pool.imap(_run_chunk, gen, 1)
+        q = ctx.Queue()
+        nw = min(workers, len(chunks))
+        procs = []
+        for r in range(nw):
+            share = [c for c in chunks if c[0] % nw == r]
+            p = ctx.Process(target=_rank_main, args=(pid, share, q))
+            p.daemon = True
+            p.start()
+            procs.append(p)
+        finished = 0
+        try:
+            while finished < nw:
+                try:
+                    item = q.get(timeout=5)
+                except Exception:
+                    if all(not p.is_alive() for p in procs) and q.empty():
+                        break
+                    continue
+                if item is None:
+                    finished += 1
+                else:
+                    outputs[item[0]] = item[1]
+        finally:
+            for p in procs:
+                if p.is_alive() and finished >= nw:
+                    p.join(timeout=5)
+                if p.is_alive():
+                    p.terminate()
+        for idx, ch in chunks:
+            if idx not in outputs:
+                outputs[idx] = [{'harness_error': 'worker process died before finishing this chunk', 'case': c_} for c_ in ch]
     else:
         _worker_init(pid)
-        pool = None
-        results = map(_run_chunk, gen)
-    try:
-        for idx, out in results:
-            for r in out:
-                ncases += 1
-                if 'harness_error' in r:
-                    harness_errors.append(r)
-                    continue
-                total.n += r['n']
-                total.nontrivial += r['nontrivial']
-                total.classes.update(r['classes'])
-                for ck, cv in r['counters'].items():
-                    if ck.startswith('max_'):
-                        total.counters[ck] = max(total.counters[ck], cv)
-                    else:
-                        total.counters[ck] += cv
-                total.notes.update(r['notes'])
-                nviol += r['nviol']
-                hashes.update(r.get('hashes', ()))
-                viol.extend(r['violations'])
-                for s in r['samples']:
-                    total.sample(s)
-    finally:
-        if pool is not None:
-            pool.terminate()
-            pool.join()
+        for item in chunks:
+            idx, out = _run_chunk(item)
+            outputs[idx] = out
+    for idx in sorted(outputs):
+        for r in outputs[idx]:
+            ncases += 1
+            if 'harness_error' in r:
+                harness_errors.append(r)
+                continue
+            total.n += r['n']
+            total.nontrivial += r['nontrivial']
+            total.classes.update(r['classes'])
+            for ck, cv in r['counters'].items():
+                if ck.startswith('max_'):
+                    total.counters[ck] = max(total.counters[ck], cv)
+                else:
+                    total.counters[ck] += cv
+            total.notes.update(r['notes'])
+            nviol += r['nviol']
+            hashes.update(r.get('hashes', ()))
+            viol.extend(r['violations'])
+            for s_ in r['samples']:
+                total.sample(s_)
 
     if harness_errors:
         for h in harness_errors[:3]:
